@@ -467,6 +467,7 @@ def plane_cylinder(
   cylinder_axis: wp.vec3,
   cylinder_radius: float,
   cylinder_half_height: float,
+  cylinder_xaxis: wp.vec3 = wp.vec3(1.0, 0.0, 0.0),  # kernel_analyzer: off
 ) -> Tuple[wp.vec4, mat43f, wp.vec3]:
   """Core contact geometry calculation for plane-cylinder collision.
 
@@ -477,6 +478,8 @@ def plane_cylinder(
     cylinder_axis: Axis direction of the cylinder.
     cylinder_radius: Radius of the cylinder.
     cylinder_half_height: Half height of the cylinder.
+    cylinder_xaxis: Local x axis of the cylinder in the global frame (first column of its rotation
+      matrix); radial direction used when the cylinder axis is parallel to the plane normal.
 
   Returns:
     - Vector of contact distances.
@@ -509,7 +512,7 @@ def plane_cylinder(
   vec = wp.where(
     len_sqr >= 1e-12,
     vec * safe_div(cylinder_radius, wp.sqrt(len_sqr)),
-    wp.vec3(1.0, 0.0, 0.0) * cylinder_radius,  # Default x-axis when degenerate
+    cylinder_xaxis * cylinder_radius,  # cylinder's x-axis when degenerate
   )
 
   # Project scaled vector on normal
